@@ -10,6 +10,9 @@ def parse_float(s):
 
 def format_number(n, n_type):
     'Convert the given number to a string, the way QB used to do.'
+    if n == 0:
+        # the negation of zero is zero (-0.0 printed ' -0')
+        n = abs(n)
     if n_type == CellType.SINGLE:
         n = ctypes.c_float(n).value
         sn = str(n)
